@@ -96,7 +96,9 @@ def gen_cases(tier, seed):
                         top_, bot_ = min(edges[l_], z1) if l_ == i_up else edges[l_], max(edges[l_ + 1], z0) if l_ == j_dn else edges[l_ + 1]
                         s_ = pinv / layers[l_]["n"]
                         rho += (top_ - bot_) * s_ / np.sqrt(1 - s_ * s_)
-                    grazing = True
+                    grazing = rho <= 1e4        # in thick layers a near-horizontal arrival can be 80 km away: outside the geometries of this property
+                    if not grazing:
+                        rho = 10 ** rng.uniform(-1, 3.6)
         ph = rng.uniform(0, 2 * np.pi)
         a = [float(rng.uniform(-2e3, 2e3)), float(rng.uniform(-2e3, 2e3)), float(z0)]
         b = [a[0] + float(rho * np.cos(ph)), a[1] + float(rho * np.sin(ph)), float(z1)]
